@@ -370,6 +370,65 @@ CLAIMED = {
             "model, which the correspondence ties to the code; exception classes are not compared (a truncated xkey raises IndexError, "
             "not an EmbitError). The private key rebuilt by HDKey.parse carries the default network (the 78 bytes carry none).",
             "§5 C10"),
+    "C12": ("proof",
+            "Lean 4 theorems (BIP380 checksum incl. create/verify identity; print-parse round trip of the character-level parser for "
+            "all seven descriptor forms; script = BIP380-386 construction from derived keys; to_public / branch commutation) + "
+            "model/implementation/spec correspondence + independent script construction",
+            "Props/C12.lean proves about the model of descriptor.py / arguments.py / taptree.py / checksum.py / the text parser of "
+            "miniscript.py / the script builders of script.py, for EVERY descriptor object, text, index and branch (no bound): "
+            "(1) checksum(desc) is BIP380's checksum (streaming loop = descsum_expand + descsum_polymod; every text), add_checksum is "
+            "idempotent, and the created checksum passes BIP380's descsum_check (the eight trailing symbols enter the polymod "
+            "XOR-linearly; BIP380's own vector raw(deadbeef)#89f8spxm is evaluated in the kernel); (2) print_parse: for every normal "
+            "descriptor of the seven forms pkh, wpkh, sh(wpkh), tr(K), sh(M), wsh(M), sh(wsh(M)), tr(K,TREE), from_string(str(d)) "
+            "returns d field for field - origins, hex SEC / x-only / WIF / xpub / xprv texts (codec abstract: whatever it prints and "
+            "decodes again), steps /n /nh /* /<a;b;..>, wrappers written in one word, thresh/multi lists, nested tap trees, the "
+            "read(7)/seek(-k) dispatch - hence print stability and identical scripts of the reparsed descriptor; (3) script_eq_spec: "
+            "whenever derive(i,b) succeeds (i < 2^31) script_pubkey() is the script the BIPs prescribe for the form from the public "
+            "keys deriveKey(k,i,b) of its key expressions (pkh, wpkh, sh-wpkh, sh/wsh/sh-wsh over the miniscript translation table "
+            "incl. BIP383 multi/sortedmulti, tr with BIP341 merkle root - sorted TapBranch - and output-key tweak); sortedmulti is "
+            "sorted after derivation; (4) to_public() first, to_public() after, and branch() first never change a derived script. "
+            "BIP32 derivation, key codecs, the taproot tweak and hashes are parameters with explicit named hypotheses (KeyLaws: C09 "
+            "neutering/tweak laws; KeyNormal.text: the key codec inverts, proved here for hex SEC keys); the driver instantiates them "
+            "with executable Base58/BIP32/secp256k1 (validated each run). Each run generates descriptors over every wrapper x key "
+            "form x step form x script expression (canonical and variant spellings, character mutations, ~230 texts at the "
+            "grammar's edges) and compares parse/print, derive, branch, to_public, scripts and checksums of embit with the model; "
+            "independently of the model it evaluates the property on embit: print-parse stability (text, scripts, addresses), "
+            "scripts equal to a plain-Python construction from keys derived with embit's bip32 API and to the Lean spec, "
+            "to_public/branch invariance, checksums equal to the BIP380 spec. Partial: parse_print_idem (normalisation of "
+            "arbitrary accepted text: {a,b}, ' / H, upper-case hex, int() spellings) is a GOAL decided by correspondence and the "
+            "variant-spelling predicate only. Observation outside the property as worded (not reported): from_string does not verify a "
+            "checksum that is present; the check demands only that such a text parses to the descriptor of its body and "
+            "prints with the BIP380 checksum.",
+            "Trusted: Lean kernel + propext/Quot.sound/Classical.choice; transcription of BIP380-386/341/67 in "
+            "Spec/DescriptorSpec.lean; harness generators and the plain-Python script builder (own secp256k1 for the tweak); "
+            "ASCII text only (Python int()/strip accept more Unicode); miniscript typing/compilation is C13's model; addresses "
+            "are compared on embit only (C11). script_eq_spec needs argsOk (direct pushes, equal-length keys in sortedmulti: true "
+            "for compressed keys). Observations, not findings: uncompressed keys are accepted in wpkh/wsh/tr; script_pubkey() of an "
+            "underived descriptor ignores the derivation steps; key-origin path elements are unbounded ints.",
+            "§5 C12"),
+    "C14": ("proof",
+            "Lean 4 theorems (owns soundness, never-claims, completeness for honest scopes, over every key list / scope / derive "
+            "function) + correspondence + independent matcher on embit's own PSBT classes",
+            "Props/C14.lean proves about the model of Descriptor.owns / Key.check_derivation / AllowedDerivation.check_derivation "
+            "(after fixes/owns-keeps-looking.diff), for every list of keys, every scope (script, both PSBT derivation maps in "
+            "order) and every derive-then-script function: owns_sound - True only if the scope has a script of the descriptor's "
+            "type and some recorded derivation is the metadata (origin fingerprint + origin path + steps, or own fingerprint + "
+            "steps) of an extended key at an unhardened index on an allowed branch whose derived script is the scope's script; "
+            "never_claims and its corollaries (script differs, other script type, no script, foreign fingerprints, wrong path incl. "
+            "branch element outside the set, hardened index: never True - the code raises there); owns_complete - a scope carrying "
+            "the script for (i,b) and the metadata of a ranged key that fixes the branch is claimed whatever other records precede "
+            "or follow it (provided none makes derive raise); the descriptor of C12 is an instance (desc_owns_eq, "
+            "desc_derive_hardened). old_first_match_rejected_honest_scope shows the repaired defect on the model: the old rule "
+            "(first matching record decides) rejected wsh(sortedmulti(2,A/0/*,B/<0;1>/*))'s own branch-1 output. Each run builds "
+            "scopes with embit's PSBT classes (input, output, re-parsed) over ranged descriptors of every wrapper with honest, "
+            "short-form, single-key, shuffled, foreign, stale, hardened, wrong-path, wrong-branch, mixed and two-map records and "
+            "scripts of other indices/branches/descriptors/wrappers, diffs owns() with the model and evaluates soundness (own "
+            "matcher), never-claims per class and completeness directly on embit.",
+            "Trusted: Lean kernel + propext/Quot.sound/Classical.choice; harness matcher/generators; recorded public keys and leaf "
+            "hashes are not read by owns(). Completeness needs: sets without repeated elements, the key's origin fingerprint "
+            "differing from its own unless the origin path is empty, no matching record that makes derive raise. Observation: "
+            "owns() raises (does not return False) on a matching record with a hardened index.",
+            "§5 C14"),
     "C20": ("proof",
         "Lean 4 theorems over all thread counts, program lengths and schedules of a locking-protocol model (serialisability, "
         "no deadlock) + probe-based translator for the binding layer's lock/buffer facts (decide +kernel obligations over "
